@@ -61,7 +61,28 @@ CLASSES = [
 ]
 # struct/tuple literals cannot be union members (typing rejects them); drop the struct literal
 MAPS = [m for m in MAPS if m[0] != 'struct']
-FAMILIES = {'numeric': NUMERIC, 'stringy': STRINGY, 'seq': SEQS + CLASSES, 'map': MAPS + CLASSES, 'mixed': NUMERIC + STRINGY + SEQS + MAPS + CLASSES + [S('none'), S('any')]}
+# members whose *image types* are subclasses of one another (datetime < date, bool < int, IntEnum < int, PosixPath < PurePosixPath,
+# OrderedDict / Counter / defaultdict < dict): a converter that recognises typed values with isinstance claims its neighbour's values
+TEMPORAL = [S('date'), S('time'), S('datetime'), S('str')]
+SUBTYPED = [S('int'), S('bool'), ('enum', 'IE'), ('enum', 'IE0'), ('sub', 'int'), S('float'), ('sub', 'float'), ('enum', 'FE0')]
+PATHS = [S('PurePosixPath'), S('Path'), S('PurePath'), S('str'), S('PathLike')]
+MAPS2 = [('map', 'Dict', S('str'), S('int')), ('map', 'OrderedDict', S('str'), S('int')), ('map', 'Counter', S('str')),
+         ('map', 'DefaultDict', S('str'), S('int')), ('map', 'Mapping', S('str'), S('int'))]
+
+
+def _tagged(layout: t.Any, tagname: str, tags: t.Sequence[t.Any]) -> t.Any:
+    # variants that differ in nothing but the tag: only dispatch by tag tells them apart, structural trial picks the first
+    variants = tuple({'fields': [{'name': tagname, 'type': ('lit', (tg_,)), 'default': ['value', tg_]},
+                                 {'name': 'size', 'type': S('float'), 'default': ['value', 1.0]}],
+                      'opts': {}, 'name': f"Shape{i}{str(layout)[:3]}{tagname}"} for (i, tg_) in enumerate(tags))
+    return ('tagged', layout, tagname, variants)
+
+
+# a tagged union as one member of an untagged union: dispatch inside it stays by tag, and its values are serialised in tagged form
+TAGGED = [_tagged('internal', 'kind', ('circle', 'square')), _tagged('external', 'kind', ('circle', 'square')),
+          _tagged(['adjacent', 't', 'c'], 'kind', ('circle', 'square')), _tagged('external', 'ty', (1, 2, 3)),
+          ('map', 'Dict', S('str'), S('any')), S('none'), ('seq', 'List', S('int')), CLASSES[3], S('str')]
+FAMILIES = {'tagged': TAGGED, 'temporal': TEMPORAL, 'subtyped': SUBTYPED, 'paths': PATHS, 'maps2': MAPS2, 'numeric': NUMERIC, 'stringy': STRINGY, 'seq': SEQS + CLASSES, 'map': MAPS + CLASSES, 'mixed': NUMERIC + STRINGY + SEQS + MAPS + CLASSES + [S('none'), S('any')]}
 
 
 @st.composite
@@ -196,7 +217,22 @@ def check(case: t.Any, ctx: Ctx) -> None:
                 ok_members.append((j, d_j))
         from .c05 import canon
         if not ok_members:
-            # no member's fast pass recognises the typed value: the documented fallback is serialisation by runtime type
+            # No member's fast pass recognises the typed value.  If a member nevertheless accepts x in the public sense (its own
+            # serialisation of x reads back, through that member alone, as x), the union has a member to use and must use one.
+            for (j, m) in enumerate(mnodes):
+                if m.kind == 'ndarray':
+                    continue    # array members cast whatever they are given (int64 overflow to float and back): unspecified cell
+                MT = m.pytype()
+                (kj, d_j) = outcome(lambda: pane.into_data(x, MT))
+                if kj != 'ok':
+                    continue
+                (kb, back) = outcome(lambda: pane.from_data(d_j, MT))
+                if kb == 'ok' and same(back, x) is None:
+                    ok_members.append((j, d_j))
+            if ok_members:
+                ctx.label('serialise:member-by-round-trip')
+        if not ok_members:
+            # nothing to use: the documented fallback is serialisation by runtime type
             (kr, d_r) = outcome(lambda: pane.into_data(x))
             ctx.label('serialise:fallback-runtime-type')
             if kr == 'ok':
